@@ -82,6 +82,26 @@ std::vector<F> float_sources(int de, int digits)
     return v;
 }
 
+// non-binary destination unit R^de: multiples, ties and near-ties of the unit, computed in F (the exact value of each
+// source is read back from the float itself)
+template<class F>
+std::vector<F> float_sources_radix(int radix, int de)
+{
+    std::vector<F> v;
+    F unit = std::pow(F(radix), F(de));
+    for (long long k : {0ll, 1ll, 2ll, 3ll, 7ll, 12ll, 99ll, 100ll, 127ll, 1000ll, 32767ll, 123456ll})
+        for (F f : {F(0), F(0.1), F(0.25), F(0.4), F(0.49), F(0.5), F(0.51), F(0.6), F(0.75), F(0.9)})
+            for (int sg : {1, -1}) {
+                F x = F(sg) * (F(k) + f) * unit;
+                v.push_back(x);
+                v.push_back(std::nextafter(x, F(0)));
+                v.push_back(std::nextafter(x, x * 2 + sg));
+            }
+    std::sort(v.begin(), v.end());
+    v.erase(std::unique(v.begin(), v.end()), v.end());
+    return v;
+}
+
 enum How { VIA_CONVERT, VIA_CTOR, VIA_SN };
 
 // Dest is the plain destination type (int or scaled_integer<Rep,power<E>>); with VIA_CTOR the value is
@@ -117,11 +137,12 @@ template<class Src, class Dest, class Tag, How how, int SND = 0>
             return cv::int_value(d);
         }
     };
-    Rat const unit = Rat::scaled(Big(1), 2, de);
+    constexpr int radix = SD::radix;  // fixed-point sources have the same radix (generated so)
+    Rat const unit = Rat::scaled(Big(1), radix, de);
     if constexpr (is_fp<Src>) {
         if (!vf::begin(name, false)) return;
         int digits = how == VIA_SN ? SND : cv::max_of<RepD>().bit_length();
-        for (Src x : float_sources<Src>(de, digits)) {
+        for (Src x : (radix == 2 ? float_sources<Src>(de, digits) : float_sources_radix<Src>(radix, de))) {
             if (!vf::my_row()) continue;
             auto id = [&] { return vf::to_s(x); };
             if (vf::replaying() && !vf::case_selected(id())) continue;
@@ -166,7 +187,7 @@ template<class Src, class Dest, class Tag, How how, int SND = 0>
                 // x / unit itself is not representable in the source format (underflow of a denormal scaled down)
                 if (ref::round_to_format<Src>(xr / unit, ov) != xr / unit) labels += "/scaling_underflows_in_source";
             }
-            std::string path = SD::scaled ? "from_float.to_scaled/" : "from_float.to_int/";
+            std::string path = std::string(SD::scaled ? "from_float.to_scaled/" : "from_float.to_int/") + (radix != 2 ? "non_binary_radix/" : "");
             if (!o.ok()) {
                 vf::outcome(o.str());
                 vf::violation(path + o.str() + "/" + cls + "/" + sg + labels, id(), id() + ": " + o.str() + ", expected rep " + want.str());
@@ -182,7 +203,23 @@ template<class Src, class Dest, class Tag, How how, int SND = 0>
         bool full = cv::space_is_full<RepS>(fullbits);
         if (!vf::begin(name, full)) return;
         auto As = cv::space<RepS>(fullbits, step);
-        if (!full && de > se && de - se < 62) {
+        if (!full && radix != 2 && de > se && de - se < 18) {
+            // closure under ties and thirds of a destination unit: k*R^s + {R^s/2, R^s/R, R^s - R^s/R} +- 1
+            Big U(1);
+            for (int i = 0; i < de - se; ++i) U = U * Big(radix);
+            std::vector<Big> extra;
+            for (auto const& a : As) {
+                Big k = a / U;
+                for (Big const& off : {U / Big(2), U / Big(radix), U - U / Big(radix), (U * Big(3)) / Big(4)})
+                    for (int d = -1; d <= 1; ++d)
+                        for (int sg : {1, -1}) {
+                            Big c = k * U + Big(sg) * off + Big(d);
+                            if (cv::fits<RepS>(c)) extra.push_back(c);
+                        }
+            }
+            for (auto& e : extra) As.push_back(e);
+        }
+        if (!full && radix == 2 && de > se && de - se < 62) {
             // closure under ties: k*2^s +- 2^(s-1) +- 1
             int s = de - se;
             std::vector<Big> extra;
@@ -200,7 +237,7 @@ template<class Src, class Dest, class Tag, How how, int SND = 0>
             if (!vf::my_row()) continue;
             auto id = [&] { return a.str(); };
             if (vf::replaying() && !vf::case_selected(id())) continue;
-            Rat q = Rat::scaled(a, 2, se) / unit;
+            Rat q = Rat::scaled(a, radix, se) / unit;
             Big want = round_mode(q, mode);
             if (!fits_dest(want)) {
                 vf::skip_pre();
@@ -217,9 +254,17 @@ template<class Src, class Dest, class Tag, How how, int SND = 0>
             if (vf::want_sample()) vf::sample(name + " " + id() + " -> " + got.str() + " expected " + want.str());
             const char* cls = tie ? "tie" : (inexact ? "inexact" : "exact");
             const char* sg = q.sign() < 0 ? "neg" : "pos";
-            std::string path = de <= se ? "from_fixed.loss_free/" : "from_fixed.narrowing/";
+            std::string path = std::string(de <= se ? "from_fixed.loss_free/" : "from_fixed.narrowing/") + (radix != 2 ? "non_binary_radix/" : "");
             std::string labels;
-            if constexpr (cv::is_builtin_int<RepS>) {
+            if constexpr (cv::is_builtin_int<RepS> && radix != 2) {
+                using Prom = decltype(+std::declval<std::conditional_t<cv::is_builtin_int<RepS>, RepS, int>>());
+                if (de > se && de - se < 18) {
+                    Big U(1);
+                    for (int i = 0; i < de - se; ++i) U = U * Big(radix);
+                    if (!cv::fits<Prom>(a.abs() + U / Big(2))) labels += "/bias_overflows_source";
+                }
+            }
+            if constexpr (cv::is_builtin_int<RepS> && radix == 2) {
                 using Prom = decltype(+std::declval<std::conditional_t<cv::is_builtin_int<RepS>, RepS, int>>());
                 // adding half a destination unit overflows the promoted source rep
                 if (de > se && de - se < 100 && !cv::fits<Prom>(a.abs() + Big::pow2(de - se - 1))) labels += "/bias_overflows_source";
@@ -246,11 +291,12 @@ template<class Src, class Dest, class Tag, How how, int SND = 0>
     }
 }
 
-template<class Rep, int E>
-using SI = scaled_integer<Rep, power<E>>;
+template<class Rep, int E, int Radix = 2>
+using SI = scaled_integer<Rep, power<E, Radix>>;
 using E15 = cnl::elastic_integer<15>;
 using E31 = cnl::elastic_integer<31>;
 using OVS = cnl::overflow_integer<int, cnl::saturated_overflow_tag>;
+using RNI = cnl::rounding_integer<int>;  // its own (nearest) rounding must not be applied on top of the conversion's
 using W100 = cnl::wide_integer<100>;
 using f32 = float;
 using f64 = double;
